@@ -208,10 +208,10 @@ PROPS["C11"] = {
 PROPS["C04"] = {
     "level": "proof",
     "technique": "Lean 4 proof (the structural container walk is total on every byte string, linear in steps, and yields at most |input|/8 boxes) + model-vs-decoder correspondence on hostile inputs + isolated-worker exploration for the runtime clauses (panic, wall time, allocation) that no model can exhibit",
-    "level_text": "PARTIAL by nature. Proved (Props/C04.lean, for every byte string): the transcription of DecodeHeaderSR / DecodeBoxSR / DecodeContainerChildrenSR / the DecodeFileSR loop (Model/Walk.lean) never leaves the input, spends at least 8 input bytes per box, so produces at most |input|/8 boxes, and terminates within |input|+2 nested steps (fuel sufficiency + monotonicity). Tie: on mutated inputs that both decoders accept and Encode reproduces, the model's box skeleton must equal the decoded tree's. NOT provable in a model and decided by exploration instead: absence of Go panics, the time bound and the allocation bound of the real decoders, Info and both encoders; every input runs every entry point (DecodeFile with/without lazy mdat, ISM and start-on-moof flags, DecodeFileSR, DecodeBox, DecodeBoxSR), Info at three detail levels plus a per-box level, Encode/EncodeSW in both modes, in re-exec'd worker processes under RLIMIT_AS with a watchdog; time budget 1 s + 5 us/byte, allocation budget K*len + 16 MiB (K = 16 decode, 64 encode, 400 Info); suspected time/memory violations are re-run alone before they are reported.",
+    "level_text": "PARTIAL by nature. Proved (Props/C04.lean, for every byte string): the transcription of DecodeHeaderSR / DecodeBoxSR / DecodeContainerChildrenSR / the DecodeFileSR loop (Model/Walk.lean) never leaves the input, spends at least 8 input bytes per box, so produces at most |input|/8 boxes, and terminates within |input|+2 nested steps (fuel sufficiency + monotonicity); the size check of the second-stage senc parser (Model/SencSize.lean: IV size from tenc/seig or inferred, announced sample count, per-sample bytes present; branch without sub-sample entries) never allocates more IV slots than the box has per-sample bytes and an accepted senc holds every IV it announces (senc_slots_le, senc_parse_fits; tied to SencBox.ParseReadBox by the `sencsize` op on IV sizes x payload lengths x boundary counts incl. the counts whose 32-bit product with the element size wraps). Tie: on mutated inputs that both decoders accept and Encode reproduces, the model's box skeleton must equal the decoded tree's. NOT provable in a model and decided by exploration instead: absence of Go panics, the time bound and the allocation bound of the real decoders, Info and both encoders; every input runs every entry point (DecodeFile with/without lazy mdat, ISM and start-on-moof flags, DecodeFileSR, DecodeBox, DecodeBoxSR), Info at three detail levels plus a per-box level, Encode/EncodeSW in both modes, in re-exec'd worker processes under RLIMIT_AS with a watchdog; time budget 1 s + 5 us/byte, allocation budget K*len + 16 MiB (K = 16 decode, 64 encode, 400 Info); suspected time/memory violations are re-run alone before they are reported.",
     "level_note": "Trusted: Lean kernel, allowed axioms; the walk model is validated by correspondence only on inputs the library itself round-trips (the decoders are lenient about leaf header sizes, which a header-size based model cannot follow); runtime.MemStats.TotalAlloc and wall clock as measured in the worker.",
-    "trusted": ["Model/Walk.lean hand transcription of mp4/boxsr.go + mp4/container.go (structure only)", "harness workers: RLIMIT_AS, watchdog, TotalAlloc accounting"],
-    "unmodelled": ["every leaf decoder, Info method and encoder (runtime behaviour: exploration only)", "io.Reader short reads / failing readers", "inputs above 300 kB"],
+    "trusted": ["Model/Walk.lean hand transcription of mp4/boxsr.go + mp4/container.go (structure only)", "Model/SencSize.lean hand transcription of the size check of mp4/senc.go ParseReadBox (branch without sub-sample entries)", "harness workers: RLIMIT_AS, watchdog, TotalAlloc accounting"],
+    "unmodelled": ["every leaf decoder (except the senc size check above), Info method and encoder (runtime behaviour: exploration only)", "senc second stage with sub-sample entries (parseAndFillSamples: exploration and scenarios only)", "io.Reader short reads / failing readers", "inputs above 300 kB"],
     "partial": ["no-panic, time and memory clauses are decided by exploration (about 290 000 inputs quick, 2 000 000 thorough), not by proof; the theorem bounds only the structural walk"],
     "assumptions": [],
 }
